@@ -19,8 +19,8 @@ def _sig(h):
 def _case(ctx, hist, ops, tag, sweep='all'):
     return {'steps': hist, 'ops': ops, 'variant': ctx.rng.randrange(1, 1 << 30),
             # segment numbering starts after an empty last segment left by an earlier process: the ids of the history
-            # straddle a digit boundary of the file names for some cases
-            'base': ctx.rng.choice([0, 0, 7, 8, 97, 98, 9997]), 'sweep': sweep, 'tag': tag}
+            # straddle a digit boundary of the file names for some cases (99997/99998: they outgrow the %05d pattern)
+            'base': ctx.rng.choice([0, 0, 0, 7, 8, 97, 98, 9997, 99997, 99998]), 'sweep': sweep, 'tag': tag}
 
 
 def run(ctx):
@@ -60,7 +60,7 @@ def run(ctx):
     ctx.exhaustive = len(chosen) == len(exh)
     cases = [_case(ctx, h, ops, 'lead' if il else 'exh') for il, h, ops in chosen]
     # 4. longer random behaviours of the full configuration
-    nsim = 60 if quick else 1500   # per TLC worker
+    nsim = max(1, (480 if quick else 8000) // vlib.NCPU)   # behaviours per TLC worker
     depth = 11 if quick else 15
     sim = ctx.tlc('WAL', f'WAL.Gen_{tier}.cfg', timeout=600 if quick else 1500, simulate={'num': nsim}, depth=depth)
     if sim.timed_out or not sim.ok:
